@@ -1460,6 +1460,11 @@ func (c *Conn) executeQuery(ctx context.Context, qry *Query) *Iter {
 		qry.routingInfo.table = info.request.table
 		qry.routingInfo.mu.Unlock()
 	} else {
+		if len(qry.values) > 0 || qry.binding != nil {
+			// the values could only travel without their types, i.e. not at
+			// all: the statement would be sent without them
+			return &Iter{err: fmt.Errorf("gocql: %d values given for a statement that is not prepared (only SELECT, INSERT, UPDATE, DELETE and BATCH statements are): %.40q", len(qry.values), qry.stmt)}
+		}
 		frame = &writeQueryFrame{
 			statement:     qry.stmt,
 			params:        params,
